@@ -12,6 +12,7 @@ from .. import netcase as N
 
 PROPERTY = "C07"
 LEVEL = "exploration"
+TECHNIQUE = 'property-based testing (Hypothesis): encode/decode round trip with independent per-format encoders and code tables; atheris (libFuzzer) structure-aware supplement in the thorough tier'
 RULE = (
     "Abstract reactions are encoded by my own per-format encoders (KIDA/Leeds fixed width, UMIST ':'-separated, "
     "KROME with generated @format orders, UCLCHEM, native) into files of 1-12 data lines with blank/whitespace-only "
